@@ -502,6 +502,31 @@ func runC11(ctx *Ctx) error {
 		c11Sequence(ctx, idx, sq.m, sq.sizes, sq.fail)
 		idx++
 	}
+	// plain requests and uploads in one list: every placement of up to two uploads in short lists, random beyond
+	for n := 1; n <= 5; n++ {
+		for a := 0; a < n; a++ {
+			for _, m := range []int{1, 2, 3, 8} {
+				c11Mixed(ctx, idx, n, m, []int{a})
+				idx++
+				for b := a + 1; b < n; b++ {
+					c11Mixed(ctx, idx, n, m, []int{a, b})
+					idx++
+				}
+			}
+		}
+	}
+	for k := 0; k < 40*ctx.Budget; k++ {
+		r := ctx.Rand.Fork()
+		n := r.Range(2, 14)
+		var ups []int
+		for i := 0; i < n; i++ {
+			if r.Chance(1, 4) {
+				ups = append(ups, i)
+			}
+		}
+		c11Mixed(ctx, idx, n, r.Range(1, 6), ups)
+		idx++
+	}
 	maxN, maxM := 24, 8
 	if ctx.Thorough() {
 		maxN, maxM = 60, 16
@@ -548,4 +573,129 @@ func runC11(ctx *Ctx) error {
 		idx++
 	}
 	return nil
+}
+
+// ---- lists that mix plain requests and requests carrying a file -------------------------------------
+// queryBatch sends a request with an upload in a multipart call of its own and batches the others;
+// the statement holds for such a list like for any other: N results, result i answers request i,
+// every request in exactly one HTTP call, at most m plain requests per call.
+
+type mixedRT struct {
+	mu    sync.Mutex
+	seen  map[string]int // query -> number of HTTP calls that carried it
+	sizes []int          // plain requests per JSON call
+}
+
+func (p *mixedRT) answer(q string) map[string]interface{} {
+	n, _ := strconv.Atoi(strings.TrimPrefix(strings.TrimPrefix(q, "u"), "q"))
+	return map[string]interface{}{"data": map[string]interface{}{"v": n + 1000}}
+}
+
+func (p *mixedRT) RoundTrip(r *http.Request) (*http.Response, error) {
+	if err := r.Context().Err(); err != nil {
+		return nil, err
+	}
+	var out interface{}
+	if strings.HasPrefix(r.Header.Get("Content-Type"), "multipart/form-data") {
+		if err := r.ParseMultipartForm(1 << 20); err != nil {
+			return nil, err
+		}
+		var one struct {
+			Query string `json:"query"`
+		}
+		json.Unmarshal([]byte(r.FormValue("operations")), &one)
+		p.mu.Lock()
+		p.seen[one.Query]++
+		p.mu.Unlock()
+		out = p.answer(one.Query)
+	} else {
+		body, _ := io.ReadAll(r.Body)
+		var reqs []struct {
+			Query string `json:"query"`
+		}
+		json.Unmarshal(body, &reqs)
+		arr := make([]map[string]interface{}, len(reqs))
+		p.mu.Lock()
+		p.sizes = append(p.sizes, len(reqs))
+		for i, q := range reqs {
+			p.seen[q.Query]++
+			arr[i] = p.answer(q.Query)
+		}
+		p.mu.Unlock()
+		out = arr
+	}
+	b, _ := json.Marshal(out)
+	return &http.Response{StatusCode: 200, Body: io.NopCloser(bytes.NewReader(b)), Header: http.Header{"Content-Type": []string{"application/json"}}}, nil
+}
+
+func c11Mixed(ctx *Ctx, idx, n, m int, uploadAt []int) {
+	rt := &mixedRT{seen: map[string]int{}}
+	q := queryer.NewMultiOpQueryer("http://svc/", m).WithContext(context.Background()).WithHTTPClient(&http.Client{Transport: rt})
+	cs := map[string]interface{}{"kind": "plain requests and requests with a file in one list", "n": n, "m": m, "upload_at": uploadAt}
+	isUp := map[int]bool{}
+	for _, u := range uploadAt {
+		isUp[u] = true
+	}
+	ctx.Rep.Case(hx.Canon(cs), len(uploadAt) > 0 && len(uploadAt) < n)
+	ctx.Rep.Count("list mixing plain requests and uploads")
+	inputs := make([]*requests.Request, n)
+	for i := range inputs {
+		if isUp[i] {
+			inputs[i] = &requests.Request{Query: "u" + strconv.Itoa(i), Variables: map[string]interface{}{
+				"file": &requests.Upload{File: io.NopCloser(strings.NewReader("bytes of file " + strconv.Itoa(i))), FileName: fmt.Sprintf("f%d.txt", i)}}}
+		} else {
+			inputs[i] = &requests.Request{Query: "q" + strconv.Itoa(i)}
+		}
+	}
+	type ret struct {
+		res []map[string]interface{}
+		err error
+		pan string
+	}
+	done := make(chan ret, 1)
+	go func() {
+		var r ret
+		defer func() {
+			if p := recover(); p != nil {
+				r.pan = fmt.Sprint(p)
+			}
+			done <- r
+		}()
+		r.res, r.err = q.Query(inputs)
+	}()
+	var r ret
+	select {
+	case r = <-done:
+	case <-time.After(5 * time.Second):
+		ctx.Rep.Fail(hx.Failure{Kind: "property-fails", Detail: "Query over a list mixing plain requests and uploads did not return (hang)", Case: cs, Index: idx})
+		return
+	}
+	fail := func(msg string) {
+		ctx.Rep.Fail(hx.Failure{Kind: "property-fails", Detail: msg, Case: cs, Impl: map[string]interface{}{"result": r.res, "error": fmt.Sprint(r.err), "json_call_sizes": rt.sizes}, Index: idx})
+	}
+	switch {
+	case r.pan != "":
+		fail("Query over a list mixing plain requests and uploads panicked: " + r.pan)
+	case r.err != nil:
+		fail(fmt.Sprintf("no HTTP call failed but Query returned error: %v", r.err))
+	case len(r.res) != n:
+		fail(fmt.Sprintf("%d results for %d requests", len(r.res), n))
+	default:
+		for i := range inputs {
+			if r.res[i] == nil || fmt.Sprint(r.res[i]["v"]) != strconv.Itoa(i+1000) {
+				fail(fmt.Sprintf("result %d is not the answer to request %d (uploads at %v)", i, i, uploadAt))
+				return
+			}
+			if c := rt.seen[inputs[i].Query]; c != 1 {
+				fail(fmt.Sprintf("request %d was carried by %d HTTP calls, want exactly 1", i, c))
+				return
+			}
+		}
+		for _, s := range rt.sizes {
+			if s > m {
+				fail(fmt.Sprintf("an HTTP call carried %d requests, the maximum batch size is %d", s, m))
+				return
+			}
+		}
+	}
 }
